@@ -86,7 +86,7 @@ def r2(ctx, R):
             R.check(impl == expl, f'{cn}.{meth} :: the expl arm is the impl arm with the component renamed', w, impl, expl)
 
 
-@rule('C11', 'C11.R3', 'mesh_to_mesh: restriction applies Rspace and writes coarse shapes, prolongation applies Pspace and writes fine shapes', floor=4)
+@rule('C11', 'C11.R3', 'mesh_to_mesh: restriction applies Rspace and writes coarse shapes, prolongation applies Pspace and writes fine shapes', floor=8)
 def r3(ctx, R):
     repo = ctx.repo
     rel, cn = CLASSES[0]
@@ -101,6 +101,21 @@ def r3(ctx, R):
         helper = [f for f in ast.walk(fn) if isinstance(f, ast.FunctionDef) and f is not fn]
         if len(helper) != 1:
             raise AnalysisError(f'{w}: expected one nested helper applying the operator')
+        # every arm of the helper: flatten -> operator -> reshape to the target grid -> store into the SAME selection of the result
+        from ..inline import inline_block
+        hp_src, hp_dst = [a.arg for a in helper[0].args.args]
+        blocks = []
+        for node in ast.walk(helper[0]):
+            for fld in ('body', 'orelse'):
+                b = getattr(node, fld, None)
+                if isinstance(b, list) and b and all(isinstance(x, ast.Assign) for x in b) and any('.dot(' in ast.unparse(x) for x in b):
+                    blocks.append(inline_block(b))
+        want_blocks = sorted([[f'{hp_dst}[{sel}] = {mat}.dot({hp_src}[{sel}].flatten()).reshape(self.{side}_prob.nvars)'] for sel in ('..., i', 'i, ...')] + [[f'{hp_dst}[:] = {mat}.dot({hp_src}.flatten()).reshape(self.{side}_prob.nvars)']])
+        R.check(sorted(blocks) == want_blocks, f'{cn}.{meth} :: each arm stores reshape({mat} @ flatten(selection)) into the same selection of the result', w, want_blocks, sorted(blocks))
+        top = [s for s in fn.body if isinstance(s, ast.If) and 'components' in ast.unparse(s.test)]
+        arm = [ast.unparse(x) for s in top for x in (s.orelse[0].body if s.orelse and isinstance(s.orelse[0], ast.If) else [])]
+        want_arm = ['_restrict(F, G)'] if meth == 'restrict' else ['F[:] = _prolong(G, F)']
+        R.check(arm == want_arm, f'{cn}.{meth} :: plain mesh data go through the same helper', w, want_arm, arm)
         src_p, dst_p = [a.arg for a in helper[0].args.args]
         if meth == 'prolong':
             pass
@@ -250,7 +265,7 @@ def r7(ctx, R):
         used = sorted({x.attr for x in ast.walk(f2) if isinstance(x, ast.Attribute) and x.attr in ('Rcoll', 'Pcoll')})
         sp_ = sorted({x.attr for x in ast.walk(f2) if isinstance(x, ast.Attribute) and x.attr in ('restrict', 'prolong') and ast.unparse(x.value) == 'self.space_transfer'})
         want_sp = ['restrict'] if meth == 'restrict' else ['prolong']
-        R.fn(f'{rel}:BaseTransfer.{meth}')
+        # (the bodies of restrict/prolong are decided by C10; they are not registered here as analysed functions)
         R.check(used == [mat] and sp_ == want_sp, f'BaseTransfer.{meth} :: node transfer with {mat}, space transfer with space_transfer.{want_sp[0]}', f'{rel}:BaseTransfer.{meth}', {'coll': [mat], 'space': want_sp}, {'coll': used, 'space': sp_})
 
 
